@@ -11,7 +11,7 @@ fn known() -> &'static Vec<String> {
     static K: OnceLock<Vec<String>> = OnceLock::new();
     K.get_or_init(|| {
         let mut v = vec![];
-        for p in ["C01", "C03", "C04", "C06", "C07", "C11", "C12", "C14"] {
+        for p in ["C01", "C03", "C04", "C05", "C06", "C07", "C11", "C12", "C13", "C14"] {
             let ctx = Ctx::new(p, "quick");
             for k in &ctx.known {
                 if k.status == "open" {
@@ -45,6 +45,7 @@ pub fn oracles(target: &str, data: &[u8]) -> Vec<(&'static str, R)> {
                 ("C01", f(checks::c01::SUBS, "modules")),
                 ("C07", f(checks::c07::SUBS, "modules")),
                 ("C14", f(checks::c14::SUBS, "random-positions")),
+                ("C05", f(checks::c05::SUBS, "modules")),
             ]
         }
         "decoder" => {
@@ -54,7 +55,13 @@ pub fn oracles(target: &str, data: &[u8]) -> Vec<(&'static str, R)> {
         "builder" => {
             let a = checks::builder::C12_SUBS.iter().find(|s| s.name == "histories").unwrap();
             let b = checks::builder::C06_SUBS.iter().find(|s| s.name == "histories").unwrap();
-            vec![("C12", (a.f)(data, &mut st)), ("C06", (b.f)(data, &mut Stats::new()))]
+            let c = checks::builder::C06_SUBS.iter().find(|s| s.name == "parked-histories").unwrap();
+            let d = checks::builder::C13_SUBS.iter().find(|s| s.name == "histories").unwrap();
+            vec![
+                ("C12", (a.f)(data, &mut st)),
+                ("C06", (b.f)(data, &mut Stats::new()).and_then(|_| (c.f)(data, &mut Stats::new()))),
+                ("C13", (d.f)(data, &mut Stats::new())),
+            ]
         }
         _ => vec![],
     }
@@ -103,6 +110,8 @@ fuzz_sub!(modules_c03, "modules", "C03");
 fuzz_sub!(modules_c04, "modules", "C04");
 fuzz_sub!(modules_c07, "modules", "C07");
 fuzz_sub!(modules_c14, "modules", "C14");
+fuzz_sub!(modules_c05, "modules", "C05");
+fuzz_sub!(builder_c13, "builder", "C13");
 fuzz_sub!(decoder_c11, "decoder", "C11");
 fuzz_sub!(builder_c12, "builder", "C12");
 fuzz_sub!(builder_c06, "builder", "C06");
@@ -125,6 +134,8 @@ pub fn subs_for(prop: &str) -> Vec<Sub> {
             add("fuzz-modules", modules_c04);
         }
         "C07" => add("fuzz-modules", modules_c07),
+        "C05" => add("fuzz-modules", modules_c05),
+        "C13" => add("fuzz-builder", builder_c13),
         "C14" => add("fuzz-modules", modules_c14),
         "C11" => add("fuzz-decoder", decoder_c11),
         "C12" => add("fuzz-builder", builder_c12),
